@@ -14,6 +14,9 @@ from spec.groups import MOD, ALL_SYMS, FUSE_S, canon, is_canonical, zero, sym_cl
 from spec import tensor as T
 from spec.tensor import sym_tensor, check_wf, view, same_block_set, leg_charge, GhostData
 
+from contracts.t_contract import (h_tensordot, tensordot_units, h_add, h_add_incompatible, h_vdot, h_trace,
+                                  h_broadcast, more_units)
+
 PROPERTY = 'C02'
 S_ = 'yastn.tensor._single'
 FUNCTIONS = [f"{S_}:{f}" for f in ('conj', 'conj_blocks', 'flip_signature', 'flip_charges', 'drop_leg_history', 'transpose',
@@ -337,7 +340,7 @@ def h_is_consistent(V, sym, nd, lt, diag, break_what):
 def units(tier):
     U = []
     th = tier == 'thorough'
-    syms = ALL_SYMS
+    syms = ALL_SYMS if th else ('dense', 'Z2', 'U1', 'Z2xU1')
     ltmax = 3 if th else 2
     ndmax = 4 if th else 3
 
@@ -409,6 +412,8 @@ def units(tier):
             if len(MOD[sym]) == 0 and lt > 1:
                 continue
             U.append(('h_is_consistent', f"{sym},diag,lt={lt},none", dict(sym=sym, nd=2, lt=lt, diag=True, break_what='none')))
+    U += tensordot_units(tier)
+    U += more_units(tier)
     return U
 
 
